@@ -795,6 +795,7 @@ func (h *histT) judgeReply(qtok string, recs []recTok, freshCalls map[string]int
 		// either — it gets its own signature because the record then comes
 		// out of an entry other than its origin's.
 		copyOf := false
+		copyHolder := ""
 		if r.ns {
 			for _, p := range order {
 				if p == r.tok {
@@ -802,6 +803,12 @@ func (h *histT) judgeReply(qtok string, recs []recTok, freshCalls map[string]int
 				}
 				if cachedAns[p] {
 					copyOf = true
+					if copyHolder == "" {
+						// the stored entry that (possibly) holds this copy: the first cached
+						// alias piece of the chain — "never grows" is per stored entry, and a
+						// purged and re-admitted alias is another entry with another copy
+						copyHolder = fmt.Sprintf("%s@%p", p, h.known[slotKey{p, false}])
+					}
 				}
 			}
 		}
@@ -813,7 +820,7 @@ func (h *histT) judgeReply(qtok string, recs []recTok, freshCalls map[string]int
 			if ce := o.admitV + o.nsLife; h.V >= ce || r.ttl > ce-h.V-1 {
 				note(fail("c/hit/authority-copy-outlives-origin/"+o.nsLim, "piece=%s shown=%d at=%ds origin admitted=%ds authority lifetime=%ds", r.tok, r.ttl, h.V, o.admitV, o.nsLife))
 			}
-			key := fmt.Sprintf("%s|%s#%d.%d/%v", holder, r.tok, r.mark, o.gen, r.ns)
+			key := fmt.Sprintf("%s|%s|%s#%d.%d/%v", holder, copyHolder, r.tok, r.mark, o.gen, r.ns)
 			if last, ok := h.shown[key]; ok && r.ttl > last {
 				note(fail("c/hit/shown-ttl-grew", "piece=%s shown=%d earlier=%d", r.tok, r.ttl, last))
 			}
@@ -1153,6 +1160,20 @@ func (h *histT) query(route, tok string, ecs, do bool, up string) vlib.Res {
 			comp = "+dns64"
 			if calls[tok] > 0 {
 				comp = "+dns64-of-fresh-nodata" // not a hit on the stored negative entry
+			}
+			// the synthetic TTL caps every record of the answer at the shortest piece, so
+			// what one stored entry shows depends on which other pieces took part: "never
+			// grows" is judged per composition of the same stored pieces
+			seenP := map[string]bool{}
+			for _, r := range recs {
+				id := fmt.Sprintf("%s#%d/%v", r.tok, r.mark, r.fresh)
+				if !r.ns && !seenP[id] {
+					seenP[id] = true
+					comp += "," + id
+					if !r.fresh && isNameTok(r.tok) {
+						comp += fmt.Sprintf("@%p", h.known[slotKey{r.tok, false}])
+					}
+				}
 			}
 		}
 		or = h.judgeReply(tok, recs, calls, comp)
